@@ -137,6 +137,17 @@ def run(ctx):
         ga = md.shrake_rupley(t, probe_radius=probe, n_sphere_points=nsp, change_radii=change, atom_indices=idx)[0]
         if not (np.array_equal(ga[sel], got[sel]) and np.all(ga[~sel] == -1)):
             viol("selection", "atom_indices=%s: selected atoms %s (all-atom run %s), unselected %s" % (idx.tolist(), ga[sel].tolist(), got[sel].tolist(), ga[~sel].tolist()), rp)
+        # a selection that matches nothing (top.select("resname LIG") without a ligand): nothing is computed, every atom and residue reports -1
+        for empty_ in (np.array([], dtype=int), [], ()):
+            try:
+                ge = md.shrake_rupley(t, probe_radius=probe, n_sphere_points=nsp, change_radii=change, atom_indices=empty_)
+                gre = md.shrake_rupley(t, probe_radius=probe, n_sphere_points=nsp, change_radii=change, atom_indices=empty_, mode="residue")
+            except Exception as e:
+                viol("selection|empty|raises", "atom_indices=%r (no atom selected) raises %s: %s" % (empty_, type(e).__name__, str(e)[:100]), rp)
+                continue
+            if not (np.all(ge == -1) and np.all(gre == -1) and ge.shape == (t.n_frames, t.n_atoms) and gre.shape == (t.n_frames, t.n_residues)):
+                viol("selection|empty", "atom_indices=%r (no atom selected) gives atom areas %s and residue areas %s; every entry is -1 when nothing is selected" % (
+                    empty_, ge[0].tolist(), gre[0].tolist()), rp)
         gr = md.shrake_rupley(t, probe_radius=probe, n_sphere_points=nsp, change_radii=change, mode="residue")[0]
         resid = np.array([t.topology.atom(i).residue.index for i in range(t.n_atoms)])
         sums = np.array([got[resid == r].astype(np.float64).sum() for r in range(t.n_residues)])
